@@ -442,7 +442,12 @@ def cookie_handshake_case():
         challenges = [('stored cookie', b'org_freedesktop_general 12 feedbeef', b'5ec2e7'), ('id not in the keyring', b'org_freedesktop_general 99 feedbeef', None),
                       ('no such keyring', b'no_such_context 12 feedbeef', None), ('two tokens only', b'org_freedesktop_general 12', None),
                       ('empty challenge', b'', None)]
-        for what, chal, cookie in challenges:
+        # the keyring directory may be searchable by others (the specification forbids only reading and writing by them)
+        runs = [(0o700, c) for c in challenges] + [(mode, challenges[0]) for mode in (0o711, 0o710, 0o701, 0o500)]
+        for mode, (what, chal, cookie) in runs:
+            os.chmod(tmp, mode)
+            if mode != 0o700:
+                what = '%s, keyring directory mode %o' % (what, mode)
             for unix in (False, True):
                 ca, p = make_client(unix)
                 ca.cookie_dir = tmp
@@ -483,6 +488,10 @@ def cookie_handshake_case():
                 if (cookie is not None) != used_cookie and cookie is not None:
                     return 'cookie handshake (%s): the stored cookie was not used: %r' % (what, p.sent)
     finally:
+        try:
+            os.chmod(tmp, 0o700)
+        except OSError:
+            pass
         shutil.rmtree(tmp, ignore_errors=True)
     return None
 
@@ -518,10 +527,12 @@ def bounded(tier, seed):
     for r in range(0, 4):
         for acc in itertools.combinations(mechs, r):
             for unix in (False, True):
-                n += 1
-                f = run_handshake(set(acc), unix, b'AGREE_UNIX_FD' if unix else b'ERROR', refuse_with=b'ERROR')
-                if f:
-                    return n, f + ' (mechanisms refused with ERROR)', {'accepted': [a.decode() for a in acc], 'unix': unix, 'refused_with': 'ERROR'}
+                # ... bare, with an explanation in ASCII, in UTF-8, and in bytes that are no valid text in any encoding
+                for refusal in (b'ERROR', b'ERROR "not supported"', b'ERROR "m\xc3\xa9canisme refus\xc3\xa9"', b'ERROR "m\xe9canisme refus\xe9"', b'ERROR \xff\xfe'):
+                    n += 1
+                    f = run_handshake(set(acc), unix, b'AGREE_UNIX_FD' if unix else b'ERROR', refuse_with=refusal)
+                    if f:
+                        return n, f + ' (mechanisms refused with %r)' % refusal, {'accepted': [a.decode() for a in acc], 'unix': unix, 'refused_with': repr(refusal)}
                 for pref in ([b'ANONYMOUS'], [b'ANONYMOUS', b'EXTERNAL'], [b'DBUS_COOKIE_SHA1', b'ANONYMOUS'], [b'EXTERNAL']):
                     n += 1
                     f = run_handshake(set(acc), unix, b'AGREE_UNIX_FD' if unix else b'ERROR', preference=pref)
